@@ -45,6 +45,7 @@ var verifSkels = []string{
 	"BvAs",  // 28 vector(k) op agg(sel)
 	"BFAsAs", // 29 fn(agg(sel)) op agg(sel)
 	"BAsFAs", // 30 agg(sel) op fn(agg(sel))
+	"BBssAs", // 31 (sel op sel) op agg(sel)
 }
 
 // verifMayGuarantee: some construct below n makes pint "guarantee" label l in the concrete shape: a positive matcher
